@@ -385,7 +385,7 @@ pub fn check_c18(op: &Op, cfg: &SlotCfg, out: &Outcome, thread: usize, opi: usiz
             return;
         }
     }
-    if !exact || out.class == Class::Skip {
+    if !exact || out.class == Class::Skip || out.stub.foreign_callbacks {
         return;
     }
     for s in &out.stub.violations {
@@ -588,6 +588,9 @@ fn probe_counters(spec: &RunSpec, op: &Op, out: &Outcome, c: &mut Counters) {
     }
     if out.stub.yields > 0 {
         c.add("reach.callback_suspended_mid_batch", 1);
+    }
+    if out.stub.foreign_callbacks {
+        c.add("reach.callbacks_on_foreign_threads", 1);
     }
     if out.stub.elem_yields > 0 {
         c.add("reach.call_suspended_between_element_operations", 1);
